@@ -10,6 +10,20 @@ ASSUMPTIONS = ['JSON texts are valid, finite and do not begin with a space (a th
 RULE = 'every public function taking documents, all 2^k text/binary choices of its k document arguments, arguments from the C05/C06/C08/C12/C13 streams (second documents unrelated to, derived from, or a re-typed copy of the first); the outcomes of the 2^k calls must be equal; non-trivial = outcome is not none/false/error'
 
 
+CASE_FOLD = [
+    (['\u00c9a', 'b'], ['\u00e9a', '\u00c9A', '\u00e9A', 'B']),
+    (['\u0391\u0392\u0393', 'x'], ['\u03b1\u03b2\u03b3', '\u0391\u0392\u03b3', 'X']),
+    (['\u00c4rger', 'z'], ['\u00e4rger', '\u00c4RGER', '\u00e4RGER']),
+    (['\u212a', 'a'], ['k', 'K', '\u212a']),                      # Kelvin sign lower-cases to ASCII k
+    (['k', 'a'], ['\u212a', 'K']),
+    (['\u0130', 'i'], ['I', 'i\u0307', '\u0131']),               # dotted capital I, dotless i
+    (['stra\u00dfe', 'STRASSE'], ['strasse', 'STRA\u1e9eE', 'Stra\u00dfe']),
+    (['\u017f', 's'], ['S', '\u017f']),                          # long s upper-cases to S
+    (['\u0436\u0416', 'q'], ['\u0416\u0436', '\u0436\u0436', 'Q']),
+    (['\ud801\udc00'.encode('utf-16', 'surrogatepass').decode('utf-16'), 'm'], ['\ud801\udc28'.encode('utf-16', 'surrogatepass').decode('utf-16'), 'M']),  # Deseret
+]
+
+
 def unary_ops(ctx, v):
     r = ctx.rng
     k = gen.hexarg(r.choice(common.key_variants(ctx, v)))
@@ -88,6 +102,18 @@ def generate(ctx):
         for op in ('to_string', 'to_pretty_string'):
             ids = [ctx.add('%s_raw %s' % (op, x), diff=False).id for x in (b, t_rfc)]
             ctx.groups.append((op + '_raw', ids))
+    # deterministic: the ignore-case lookup folds ASCII letters only, in both forms -- keys and names that differ by the case of
+    # NON-ASCII letters, or that full Unicode folding would identify with an ASCII name (Kelvin sign, dotted capital I, sharp s,
+    # long s), must give the same answer for a text and for its encoding (a seeded change showed the random swapcase above
+    # reaches such a pair only by luck)
+    for keys, names in CASE_FOLD:
+        v = ('o', sorted((k.encode(), ('u', n + 1)) for n, k in enumerate(keys)))
+        b, t = gen.hexarg(gen.enc(v)), gen.hexarg(gen.json_text(v))
+        for nm in names:
+            for op in ('get_by_name {} %s 1' % gen.hexarg(nm.encode()), 'get_by_name {} %s 0' % gen.hexarg(nm.encode()),
+                       'get_by_keypath {} %s' % common.keypath_text([('n', nm.encode())])):
+                ids = [ctx.add(op.format(x)).id for x in (b, t)]
+                ctx.groups.append((op, ids))
 
 
 def judge(ctx):
